@@ -153,13 +153,13 @@ pub fn render_yp(left: &[char], right: &[char], t: &[YP]) -> String {
 
 pub struct C07;
 
-const TAB_ALPHA: &[&str] = &["a", "b", "c", "A", "Ａ", "ア", "ｱ", "ﾞ", "㍿", "é", "É", "ー", "漢", "ǅ", "Σ", "𠮷", "\u{e0100}", "😀"];
+const TAB_ALPHA: &[&str] = &["a", "b", "c", "A", "Ａ", "ア", "ｱ", "ﾞ", "㍿", "é", "É", "ー", "漢", "ǅ", "Σ", "𠮷", "\u{e0100}", "😀", "#"];
 /// alphabet of the enumerated keys of big tables (1-3 symbols: short keys are prefixes and infixes of longer ones)
 const BIG_ALPHA: &[&str] = &["ぁ", "い", "ぅ", "え", "お", "か", "ｶ", "ﾞ", "う", "ぃ", "𠮷", "z"];
 
 pub fn rewrite_table() -> BoxedStrategy<String> {
     let keych = select(TAB_ALPHA);
-    let valch = select(vec!["a", "b", "x", "A", "ア", "ガ", "ー", "京都", "1", "Ａ", "㍿"]);
+    let valch = select(vec!["a", "b", "x", "A", "ア", "ガ", "ー", "京都", "1", "Ａ", "㍿", "#", "♯#"]);
     let pair = (vec(keych, 1..=3).prop_map(|v| v.concat()), vec(valch, 1..=2).prop_map(|v| v.concat()));
     let ignore = select(vec!["Ａ", "㍿", "É", "ﷺ", "ｱ", "a", "Ⅲ", "A", "ǅ", "ア"]);
     let ext = (any::<u16>(), select(TAB_ALPHA), select(vec!["y", "ガ", "A", "京"]));
